@@ -9,6 +9,7 @@ import (
 	"time"
 
 	"github.com/go-kid/ioc/app"
+	"github.com/go-kid/ioc/container"
 	"pgregory.net/rapid"
 	"verif/harness/kit"
 )
@@ -40,6 +41,13 @@ type LazyCloser struct{ Closer }
 
 func (c *LazyCloser) LazyInit() {}
 
+// AppRefCloser wires the application itself (by type: *app.App is the only container.Factory); its name sorts
+// before the App's, so it is created first and pulls the App in while it is itself still in creation.
+type AppRefCloser struct {
+	Closer
+	Fac container.Factory `wire:",required=false"`
+}
+
 // Stateless closers: zero-size struct types (all such objects share one address in Go).
 var zcalls [3]int32
 var zgate chan struct{}
@@ -67,6 +75,13 @@ func TestClose(t *testing.T) {
 			cs[i] = c
 			if c.fail {
 				failing++
+			}
+			if k := rapid.IntRange(0, 5).Draw(t, "appref"); k == 0 {
+				ac := &AppRefCloser{}
+				ac.name, ac.gate, ac.fail = c.name, c.gate, c.fail
+				cs[i] = &ac.Closer
+				comps = append(comps, ac)
+				continue
 			}
 			if rapid.IntRange(0, 4).Draw(t, "lazy") == 0 {
 				lazy++
@@ -211,4 +226,42 @@ func seq(n int) []int {
 		r[i] = i
 	}
 	return r
+}
+
+
+// TestSlowCloser: one closer stays blocked for seconds (longer than any plausible "slow closer" warning
+// threshold the quick tier can afford): App.Close must still be waiting when it finally returns.
+func TestSlowCloser(t *testing.T) {
+	kit.Rec.Rule(rule)
+	hold := 2600 * time.Millisecond
+	if kit.Tier() == "thorough" {
+		hold = 11 * time.Second
+	}
+	slow := &Closer{name: "closer-slow", gate: make(chan struct{})}
+	quick := &Closer{name: "closer-quick", gate: make(chan struct{}), fail: true}
+	close(quick.gate)
+	out := kit.RunApp(app.SetComponents(slow, quick, &Bystander{}))
+	if !out.OK() {
+		t.Fatalf("C14: start failed: %v", out)
+	}
+	closed := make(chan struct{})
+	start := time.Now()
+	go func() { defer close(closed); out.App.Close() }()
+	select {
+	case <-closed:
+		kit.DumpReplay("c14-slow-closer", map[string]any{"returned_after": time.Since(start).String(), "hold": hold.String()})
+		t.Fatalf("C14: App.Close returned after %v although a closer is still blocked (it is held for %v)", time.Since(start), hold)
+	case <-time.After(hold):
+	}
+	close(slow.gate)
+	select {
+	case <-closed:
+	case <-time.After(10 * time.Second):
+		t.Fatalf("C14: App.Close did not return within 10s after the slow closer was released")
+	}
+	if atomic.LoadInt32(&slow.calls) != 1 || atomic.LoadInt32(&slow.done) != 1 || atomic.LoadInt32(&quick.calls) != 1 {
+		t.Fatalf("C14: closers not called exactly once: slow %d/%d quick %d", slow.calls, slow.done, quick.calls)
+	}
+	kit.Rec.Case(fmt.Sprintf("slow closer held %v next to a failing quick one", hold), true, "slow-closer")
+	kit.Rec.Case(fmt.Sprintf("slow closer (tier %s)", kit.Tier()), true, "slow-closer")
 }
